@@ -176,6 +176,24 @@ def shard_reflect(arg):
     return res
 
 
+def shard_reflect_sizes(arg):
+    """size ladder: n in {6,7,8,13,16,33} x 2 width patterns x boundary sets x all cyclic translates of the base patterns"""
+    mname, flux, rname, tier = arg
+    res = core.Res()
+    spec, kind = MODELS[mname]
+    strength = "mild" if space.recon_kappa(rname) is not None else "strong"
+    for n in space.SIZES:
+        for wv in (tuple([0.5] * n), tuple((0.5, 1.0, 2.0, 1.0, 0.5)[i % 5] for i in range(n))):
+            for bcs in bc_sets(kind)[:5]:
+                for idx in space.pattern_assignments(n, 3):
+                    res.evals += 1
+                    res.nontrivial += 1
+                    for s, w in check_reflect_op(mname, flux, rname, wv, bcs, idx, strength, res):
+                        res.violation(s.replace("C13/reflect/op/", "C13/reflect/op/larger-mesh/"), w, {"kind": "op", "model": mname, "flux": flux, "recon": rname, "widths": list(wv),
+                                                                                                         "bcs": bcs, "idx": list(idx), "strength": strength, "larger": True})
+    return res
+
+
 # ---------------------------------------------------------------------------
 def check_reflect_windows(mname, flux, rname, pattern, res=None):
     spec, kind = MODELS[mname]
@@ -462,7 +480,7 @@ def shard_units(arg):
     mname, flux, rname, tier = arg
     res = core.Res()
     spec, kind = MODELS[mname]
-    for wv in space.width_vectors(3)[::(2 if tier == 'thorough' else 4)] + [(1.0,), (0.5, 2.0)]:
+    for wv in space.width_vectors(3)[::(2 if tier == 'thorough' else 6)] + [(1.0,), (0.5, 2.0)]:
         n = len(wv)
         for bcs in bc_sets(kind):
             for idx in itertools.product(range(3), repeat=n):
@@ -555,6 +573,7 @@ def run(ctx):
     for c in cfg:
         first.setdefault((MODELS[c[0]][1], c[2]), c)
     ctx.pmap("reflection-operator-reused-objects", core.Pooled(shard_reflect), list(first.values()))
+    ctx.pmap("reflection-operator-size-ladder", shard_reflect_sizes, [c for c in cfg if th or c[2] in ("extrapol1", "extrapol3", "muscl:vanleer", "muscl:superbee")])
     ctx.pmap("reflection-packed-windows", shard_windows, [(c[0], c[1], c[2]) for c in cfg if not c[0].startswith("nozzle")])
     names = list(space.integrators())
     cfg3 = [(i, s, ctx.tier) for i in names for s in range(len(SYSTEMS))]
@@ -574,7 +593,8 @@ def _bcs(b):
 def replay(case):
     k = case["kind"]
     if k == "op":
-        return check_reflect_op(case["model"], case["flux"], case["recon"], tuple(case["widths"]), _bcs(case["bcs"]), tuple(case["idx"]), case["strength"])
+        v = check_reflect_op(case["model"], case["flux"], case["recon"], tuple(case["widths"]), _bcs(case["bcs"]), tuple(case["idx"]), case["strength"])
+        return [(s_.replace("C13/reflect/op/", "C13/reflect/op/larger-mesh/") if case.get("larger") else s_, w) for s_, w in v]
     if k == "win":
         return check_reflect_windows(case["model"], case["flux"], case["recon"], tuple(case["pattern"]))
     if k == "solve":
